@@ -19,7 +19,7 @@ META = {
     "future variable. After the run every cell of the supplied market and price frames is proved equal to its pre-run value (nested order-book "
     "lists by deep comparison), which is what makes a repeated run on the same inputs reproduce the result.",
     "bounds": ["N <= 4 bars (quick) / 6 (thorough), every split point k < N - 1", "one market type at a time: Uniswap v3 LP, Squeeth with its oSQTH pool (TWAP window, 1-minute and resampled 5-minute bars), Deribit (hourly book next to minutely Uniswap data resampled to 1 h, with and without a missing hourly snapshot), Aave v3, GMX v1", "the scripted strategies listed in the scenario names"],
-    "outside": ["GMX v2 frames (the per-bar lookup is the same data.loc[timestamp] mechanism as in the GMX v1 world; not driven here)", "an explicit second run on the same frame objects (implied by the cell-by-cell inputs-intact obligation)", "indicator columns added by user strategies", "histories longer than N", "symbolic future ticks enter the price helper through a stub (uninterpreted function of the tick): get_sqrt_ratio_at_tick on a symbolic tick is out of reach (DESIGN 3.5)"],
+    "outside": ["an explicit second run on the same frame objects (implied by the cell-by-cell inputs-intact obligation)", "indicator columns added by user strategies", "histories longer than N", "symbolic future ticks enter the price helper through a stub (uninterpreted function of the tick): get_sqrt_ratio_at_tick on a symbolic tick is out of reach (DESIGN 3.5)"],
     "assumptions": ["a look-ahead shows as a syntactic or solver-confirmed dependence of an output term (or of a branch condition) on a future variable; values are replayed as two concrete runs that share the prefix"],
 }
 UNI_SHADOWS = bars.ACTUATOR_SHADOWS
@@ -355,6 +355,57 @@ def _gmx1_script(w, p, log):
     return Script
 
 
+def _gmx2_world(ctx, p, fut):
+    """GMX v2: one pool row per bar (rows > k symbolic in pool amounts, pool value, GM supply, impact pool and both prices)"""
+    from demeter import MarketInfo, MarketTypeEnum, TokenInfo
+    from demeter.gmx import GmxV2Market
+    from demeter.gmx._typing2 import GmxV2Pool
+    from demeter.gmx.helper2 import get_price_from_v2_data
+    from demeter._typing import USD
+    from .c17 import V2_ROWS
+
+    n, k = p["bars"], p["k"]
+    idx = pd.date_range(bars.START, periods=n, freq="1min")
+    rows = []
+    for i in range(n):
+        row = dict(V2_ROWS["long_heavy"])
+        row["impactPoolAmount"] = 5.0
+        row["longAmount"] = row["longAmount"] + 10.0 * i
+        if i > k:
+            row["longAmount"] = fut.cell(f"f{i}_longAmount", "float", 1000, 10**5, row["longAmount"])
+            row["shortAmount"] = fut.cell(f"f{i}_shortAmount", "float", 10**6, 10**8, row["shortAmount"])
+            row["poolValue"] = fut.cell(f"f{i}_poolValue", "float", 10**7, 10**9, row["poolValue"])
+            row["marketTokensSupply"] = fut.cell(f"f{i}_supply", "float", 10**7, 10**9, row["marketTokensSupply"])
+            row["impactPoolAmount"] = fut.cell(f"f{i}_impactPool", "float", 0, 100, row["impactPoolAmount"])
+            row["longPrice"] = fut.cell(f"f{i}_longPrice", "float", 1000, 5000, row["longPrice"])
+            row["shortPrice"] = fut.cell(f"f{i}_shortPrice", "float", D("0.9"), D("1.1"), row["shortPrice"])
+        rows.append(row)
+    df = pd.DataFrame(rows, index=idx).astype(object)
+    weth, usdc = TokenInfo("weth", 18), TokenInfo("usdc", 6)
+    pool = GmxV2Pool(weth, usdc, weth)
+    m = GmxV2Market(MarketInfo("gmx2", MarketTypeEnum.gmx_v2), pool, data=df)
+    prices = get_price_from_v2_data(df, pool)
+    return dict(markets=[m], frames=[("gmx2.data", df)], prices=prices, quote=USD, balances={weth: D(100), usdc: D(10**6)}, m=m, weth=weth, usdc=usdc)
+
+
+def _gmx2_script(w, p, log):
+    from demeter import Strategy
+
+    m, k = w["m"], p["k"]
+
+    class Script(Strategy):
+        def on_bar(self, snapshot):
+            i = snapshot.row_id
+            if i == 0:
+                log(i, "on_bar.gm_minted", m.deposit(2.0, 3000.0))
+            elif i == k:
+                log(i, "on_bar.withdrawn", m.withdraw(m.amount / 2))
+
+    return Script
+
+
+from .c17 import V2_SHADOWS as GMX2_MODULES
+
 SQUEETH_SHADOWS = tuple(dict.fromkeys(bars.ACTUATOR_SHADOWS + ("demeter.squeeth.market", "demeter.squeeth.helper", "demeter.squeeth._typing")))
 DERIBIT_SHADOWS = tuple(dict.fromkeys(bars.ACTUATOR_SHADOWS + ("demeter.deribit.market", "demeter.deribit.helper", "demeter.deribit._typing")))
 AAVE_SHADOWS = tuple(dict.fromkeys(bars.ACTUATOR_SHADOWS + ("demeter.aave.market", "demeter.aave.core", "demeter.aave.helper", "demeter.aave._typing")))
@@ -364,6 +415,7 @@ WORLDS = {
     "deribit": (_deribit_world, _deribit_script, DERIBIT_SHADOWS),
     "aave": (_aave_world, _aave_script, AAVE_SHADOWS),
     "gmx1": (_gmx1_world, _gmx1_script, tuple(dict.fromkeys(bars.ACTUATOR_SHADOWS + ("demeter.gmx.market", "demeter.gmx.helper")))),
+    "gmx2": (_gmx2_world, _gmx2_script, tuple(dict.fromkeys(bars.ACTUATOR_SHADOWS + GMX2_MODULES))),
 }
 
 
